@@ -477,7 +477,7 @@ Proof.
     + (* dynamic *)
       cbn [admits] in Hadm. apply andb_prop in Hadm as [Ha Hal].
       cbn [py_decode]. rewrite header_sim by assumption. cbn [bind]. rewrite HL.
-      change code_L with (fc_of DArr). rewrite gen_dyn_table by discriminate. rewrite Ha. cbn [negb embed].
+      change code_L with (fc_of DArr). rewrite gen_dyn_table. rewrite Ha. cbn [negb embed].
       apply (Harr f TAny (-1)%Z); [exact Hal|exact IHf].
   - (* a scalar *)
     destruct (take _ r1) as [[p r2]|] eqn:T2; [|discriminate]. apply take_spec in T2 as [-> Hp].
@@ -494,14 +494,14 @@ Proof.
     + destruct PC; discriminate Hadm.
     + assert (Hsa : scalar_admits k c i' = true) by (destruct PC; exact Hadm).
       cbn [py_decode]. rewrite (scal_sim k c fb lb p r2 i' pos) by assumption. rewrite Hpos. reflexivity.
-    + assert (Hk : exists k, kind_of_item i' = Some k /\ allowed_has a (DScal k) = true /\ k <> KJis /\ scalar_admits k c i' = true).
+    + assert (Hk : exists k, kind_of_item i' = Some k /\ allowed_has a (DScal k) = true /\ scalar_admits k c i' = true).
       { destruct PC; cbn [admits] in Hadm;
         match type of Hadm with context [kind_of_item ?x] => destruct (kind_of_item x) as [k|] eqn:Ek; [|discriminate Hadm] end;
-        apply andb_prop in Hadm as [Hadm H3]; apply andb_prop in Hadm as [H1 H2]; exists k;
-        (split; [reflexivity|]); (split; [exact H1|]); (split; [|exact H3]); intros ->; discriminate H2. }
-      destruct Hk as (k & Ek & Ha & Hj & Hsa).
+        apply andb_prop in Hadm as [H1 H3]; exists k;
+        (split; [reflexivity|]); (split; [exact H1|exact H3]). }
+      destruct Hk as (k & Ek & Ha & Hsa).
       cbn [py_decode]. rewrite header_sim by assumption. cbn [bind].
-      rewrite (payload_case_code _ _ _ _ PC Ek). rewrite gen_dyn_table by (intro E; injection E as ->; contradiction).
+      rewrite (payload_case_code _ _ _ _ PC Ek). rewrite gen_dyn_table.
       rewrite Ha. cbn [negb]. rewrite (scal_sim k c fb lb p r2 i' pos) by assumption.
       rewrite Hpos, (embed_scalar i' k (TScal k c) (TDyn a c) Ek). reflexivity.
 Qed.
@@ -634,7 +634,7 @@ Proof.
     assert (Hv : forallb (fun b => match jis8_decode b with Some c => match jis8_encode c with Some b' => b' =? b | None => false end | None => false end) l = true).
     { destruct t as [fs|e c|k c|a c]; try discriminate Hadm; cbn [admits kind_of_item] in Hadm.
       - unfold scalar_admits in Hadm. cbn [kind_of_item] in Hadm. apply andb_prop in Hadm as [_ H]. exact H.
-      - apply andb_prop in Hadm as [H _]. apply andb_prop in H as [_ H]. discriminate H. }
+      - apply andb_prop in Hadm as [_ H]. unfold scalar_admits in H. cbn [kind_of_item] in H. apply andb_prop in H as [_ H]. exact H. }
     cbn [embed denote]. destruct (jis_decode_all l Hv) as [_ ->]. reflexivity.
   - destruct w; reflexivity.
   - destruct w; reflexivity.
